@@ -3,20 +3,45 @@ package c03
 
 import (
 	"fmt"
+	"strings"
+
 	"verif/harness/internal/core"
+	"verif/harness/internal/golib"
 	"verif/harness/internal/pxy"
 )
+
+// exec routes the HTTP/1 codec ops (h1.*: the reader of the model against net/http, with the
+// generator's expectations judged as an oracle) to golib; everything else is the exchange machine.
+type exec struct{ px *pxy.Ex }
+
+func (e *exec) Do(op string) core.Result {
+	if r, ok := golib.DoH1(op); ok {
+		return r
+	}
+	return e.px.Do(op)
+}
+func (e *exec) Close() { e.px.Close() }
 
 type P struct{}
 
 func init() { core.Register(P{}) }
 
-func (P) ID() string                                  { return "C03" }
-func (P) NewExec() core.Exec                          { return pxy.New() }
-func (P) Nontrivial(ops []string, impl []string) bool { return pxy.Nontrivial(ops, impl) }
+func (P) ID() string         { return "C03" }
+func (P) NewExec() core.Exec { return &exec{pxy.New()} }
+func (P) Nontrivial(ops []string, impl []string) bool {
+	if len(ops) > 0 && strings.HasPrefix(ops[0], "h1.") {
+		for _, l := range impl { // a truncation case: some prefix not complete, the whole message complete
+			if strings.HasPrefix(l, "ok ") {
+				return true
+			}
+		}
+		return false
+	}
+	return pxy.Nontrivial(ops, impl)
+}
 
 func (P) Rule() string {
-	return "case = one client connection with 1..6 requests against an origin that, per request, answers, closes before/inside the response head at offset k, sends non-HTTP bytes, or cuts a Content-Length/chunked body at offset k, each followed by further well-formed requests on the same connection; plus junk client byte strings followed by a liveness probe; distinct by op-list hash; non-trivial when a 502 was produced, a later request went unserved, or >= 2 requests were served"
+	return "case = one client connection with 1..6 requests against an origin that, per request, answers, closes before/inside the response head at offset k, sends non-HTTP bytes, or cuts a Content-Length/chunked body at offset k, each followed by further well-formed requests on the same connection; plus junk client byte strings followed by a liveness probe; plus codec cases (h1.*): every strict prefix of a well-formed Content-Length / chunked response through the real and the modelled HTTP/1 reader, the whole response followed by the next one; distinct by op-list hash; non-trivial when a 502 was produced, a later request went unserved, or >= 2 requests were served"
 }
 
 func (P) Gen(r *core.Rand, tier string, emit func([]string)) {
@@ -57,6 +82,20 @@ func (P) Gen(r *core.Rand, tier string, emit func([]string)) {
 					second, "end"})
 			}
 		}
+	}
+	// the same clause at the level of the bytes, with the HTTP/1 reader inside the model: every strict
+	// prefix of a Content-Length / chunked response is never a complete message (real reader = oracle,
+	// modelled reader = differential), a complete one leaves the next response untouched
+	nt := 40
+	if tier == "thorough" {
+		nt = 400
+	}
+	for i := 0; i < nt; i++ {
+		mb := 120
+		if i%4 == 3 {
+			mb = 5000
+		}
+		emit(golib.GenH1Trunc(r, mb))
 	}
 	seeds := []string{"GET / HTTP/1.1\r\n\r\n", "GET http://[::1 HTTP/1.1\r\nHost: x\r\n\r\n", "POST / HTTP/1.1\r\nContent-Length: -1\r\n\r\n", "CONNECT HTTP/1.1\r\n\r\n",
 		"GET / HTTP/1.1\r\nTransfer-Encoding: chunked\r\n\r\nZZ\r\n", "\x16\x03\x01\x02\x00\x01\x00\x01\xfc\x03\x03", "PRI * HTTP/2.0\r\n\r\nSM\r\n\r\n", "GET / HTTP/9.9\r\nHost: a\r\n\r\n",
